@@ -135,7 +135,7 @@ Proof.
 Qed.
 
 (* the two variants stop at the same rank / continue with the same status *)
-Definition forget (s : scan) : scan R := match s with Stop i _ => Stop i true | c => c end.
+Definition forget (s : scan) : scan := match s with Stop i _ => Stop i true | c => c end.
 
 Lemma bound_step_variant p i v a st bs :
   forget (bound_step R Rltb AsFound p i v a st bs) = forget (bound_step R Rltb Fixed p i v a st bs).
@@ -155,8 +155,8 @@ Lemma errno_fixed d args nargs p e0 body : errno_after (generic R Rltb Fixed d a
 Proof.
   unfold generic. destruct (negb (Nat.eqb nargs (length (inputs d)))); simpl; auto.
   destruct (first_oob R Rltb v_phys 1 (inputs d) args); simpl; auto.
-  destruct (scan_bounds R Rltb Fixed p 1 (inputs d) args 0 0) eqn:S.
-  - apply scan_fixed_restores in S. subst. reflexivity.
+  destruct (scan_bounds R Rltb Fixed p 1 (inputs d) args 0 0) eqn:HS.
+  - apply scan_fixed_restores in HS. subst. reflexivity.
   - destruct body; simpl; auto. destruct (oob_opt R Rltb (v_phys (output d)) v); simpl; auto.
     destruct (bound_step R Rltb Fixed p (S (length (inputs d))) (output d) v st bs) eqn:B.
     + apply bound_step_fixed in B; subst; reflexivity.
@@ -167,7 +167,7 @@ Lemma errno_asfound_refuted :
   exists d args nargs p e0 body, errno_after (generic R Rltb AsFound d args nargs p e0 body) <> e0.
 Proof.
   exists (Decl [Var (Some (Upper 1%R)) None] (Var None None)), [Fin 2%R], 1%nat, PStrict, 33, (Returns (Fin 0%R) 0).
-  unfold generic; simpl. unfold Rltb. destruct (Rlt_dec 1 2) as [_|H]; [simpl; discriminate | exfalso; apply H; lra].
+  unfold generic, Rltb; cbn. destruct (Rlt_dec 1 2) as [_|H]; [cbn; lia | exfalso; apply H; lra].
 Qed.
 
 Lemma variants_agree d args nargs p e0 body :
@@ -175,9 +175,9 @@ Lemma variants_agree d args nargs p e0 body :
 Proof.
   unfold same_but_errno, generic. destruct (negb (Nat.eqb nargs (length (inputs d)))); simpl; auto.
   destruct (first_oob R Rltb v_phys 1 (inputs d) args); simpl; auto.
-  pose proof (scan_variant p 1 (inputs d) args 0 0) as S.
+  pose proof (scan_variant p 1 (inputs d) args 0 0) as HS.
   destruct (scan_bounds R Rltb AsFound p 1 (inputs d) args 0 0), (scan_bounds R Rltb Fixed p 1 (inputs d) args 0 0);
-    simpl in S; inversion S; subst; simpl; auto.
+    simpl in HS; inversion HS; subst; simpl; auto.
   destruct body; simpl; auto. destruct (oob_opt R Rltb (v_phys (output d)) v); simpl; auto.
   pose proof (bound_step_variant p (S (length (inputs d))) (output d) v st0 bs0) as B.
   destruct (bound_step R Rltb AsFound p (S (length (inputs d))) (output d) v st0 bs0),
@@ -205,7 +205,7 @@ Lemma strict_bounds vr d args e0 body i : no_viol v_phys d args -> first_viol v_
 Proof.
   intros Hp Hb. apply no_viol_oob in Hp. apply first_viol_oob in Hb.
   unfold generic. rewrite Nat.eqb_refl. simpl. rewrite Hp.
-  pose proof (scan_strict vr 1 (inputs d) args 0 0) as S. rewrite Hb in S. destruct S as (r & ->). simpl. auto.
+  pose proof (scan_strict vr 1 (inputs d) args 0 0) as HS. rewrite Hb in HS. destruct HS as (r & ->). simpl. auto.
 Qed.
 
 (* a status -1 under Warning or None can only come from a physical bound *)
@@ -217,14 +217,14 @@ Proof.
   intros Hp. unfold generic. destruct (negb (Nat.eqb nargs (length (inputs d)))); simpl; [discriminate|].
   destruct (first_oob R Rltb v_phys 1 (inputs d) args) eqn:F.
   - intros _. left. exists n. now apply first_viol_oob.
-  - assert (S : exists st bs, scan_bounds R Rltb vr p 1 (inputs d) args 0 0 = Cont st bs /\ (st = 0 \/ st = 1)).
+  - assert (HS : exists st bs, scan_bounds R Rltb vr p 1 (inputs d) args 0 0 = Cont st bs /\ (st = 0 \/ st = 1)).
     { destruct p; [| |contradiction].
       - rewrite scan_none. eauto.
       - destruct (scan_warning vr 1 (inputs d) args 0 0) as (st & bs & E & H1 & H2). exists st, bs. split; auto.
         destruct (first_oob R Rltb v_bounds 1 (inputs d) args) eqn:G.
         + right. apply H2; [discriminate | lia].
         + left. apply H1; reflexivity. }
-    destruct S as (st & bs & -> & Hst). destruct body as [v el|]; simpl; [|discriminate].
+    destruct HS as (st & bs & -> & Hst). destruct body as [v el|]; simpl; [|discriminate].
     destruct (oob_opt R Rltb (v_phys (output d)) v) eqn:O.
     + intros _. right. exists v, el. split; auto. now apply oob_opt_outside.
     + unfold bound_step. destruct (v_bounds (output d)) as [b|].
@@ -251,21 +251,21 @@ Lemma all_inside vr d args p e0 x : no_viol v_phys d args -> no_viol v_bounds d 
 Proof.
   intros Hp Hb Ho Hob. apply no_viol_oob in Hp. apply no_viol_oob in Hb. apply oob_opt_false in Ho. apply oob_opt_false in Hob.
   unfold generic. rewrite Nat.eqb_refl. simpl. rewrite Hp.
-  assert (S : scan_bounds R Rltb vr p 1 (inputs d) args 0 0 = Cont 0 0).
+  assert (HS : scan_bounds R Rltb vr p 1 (inputs d) args 0 0 = Cont 0 0).
   { destruct p.
     - apply scan_none.
     - destruct (scan_warning vr 1 (inputs d) args 0 0) as (st & bs & E & H1 & _). destruct (H1 Hb) as (-> & ->). exact E.
-    - pose proof (scan_strict vr 1 (inputs d) args 0 0) as S. rewrite Hb in S. exact S. }
-  rewrite S. simpl. rewrite Ho. unfold bound_step. unfold oob_opt in Hob.
+    - pose proof (scan_strict vr 1 (inputs d) args 0 0) as HS. rewrite Hb in HS. exact HS. }
+  rewrite HS. simpl. rewrite Ho. unfold bound_step. unfold oob_opt in Hob.
   destruct (v_bounds (output d)) as [b|]; [rewrite Hob|]; unfold finish; simpl; auto.
 Qed.
 
 (* status 1 only under Warning, with a positive rank and the computed value returned *)
-Lemma status_one vr d args nargs p e0 body : (1 <= length (inputs d))%nat \/ True ->
+Lemma status_one vr d args nargs p e0 body :
   status (generic R Rltb vr d args nargs p e0 body) = 1 ->
   p = PWarning /\ exists x, body = Returns (Fin x) 0 /\ ret (generic R Rltb vr d args nargs p e0 body) = Fin x.
 Proof.
-  intros _. unfold generic. destruct (negb (Nat.eqb nargs (length (inputs d)))); simpl; [discriminate|].
+  unfold generic. destruct (negb (Nat.eqb nargs (length (inputs d)))); simpl; [discriminate|].
   destruct (first_oob R Rltb v_phys 1 (inputs d) args); simpl; [discriminate|].
   destruct p.
   - rewrite scan_none. destruct body as [v el|]; simpl; [|discriminate].
@@ -281,10 +281,10 @@ Proof.
     destruct G as (st' & bs' & G). rewrite G in *. unfold finish in *; simpl in *.
     destruct (Z.eqb el 0) eqn:E; destruct v; simpl in *; try discriminate.
     apply Z.eqb_eq in E; subst. exists v. auto.
-  - pose proof (scan_strict vr 1 (inputs d) args 0 0) as S.
+  - pose proof (scan_strict vr 1 (inputs d) args 0 0) as HS.
     destruct (first_oob R Rltb v_bounds 1 (inputs d) args).
-    + destruct S as (r & ->). simpl. discriminate.
-    + rewrite S. destruct body as [v el|]; simpl; [|discriminate].
+    + destruct HS as (r & ->). simpl. discriminate.
+    + rewrite HS. destruct body as [v el|]; simpl; [|discriminate].
       destruct (oob_opt R Rltb (v_phys (output d)) v); simpl; [discriminate|].
       unfold bound_step. destruct (v_bounds (output d)) as [b|]; [destruct (oob R Rltb b v)|]; unfold finish; simpl;
         destruct (Z.eqb el 0), (isfinite R v); simpl; discriminate.
@@ -358,8 +358,8 @@ Proof.
   unfold c_checkBounds, generic. rewrite Nat.eqb_refl. simpl.
   destruct (first_oob R Rltb v_phys 1 (inputs d) args) as [i|].
   - split; [intros _ p; reflexivity | intros H; lia].
-  - pose proof (scan_strict vr 1 (inputs d) args 0 0) as S.
+  - pose proof (scan_strict vr 1 (inputs d) args 0 0) as HS.
     destruct (first_oob R Rltb v_bounds 1 (inputs d) args) as [i|].
-    + split; [intros H; lia|]. intros _. destruct S as (r & ->). simpl. lia.
+    + split; [intros H; lia|]. intros _. destruct HS as (r & ->). simpl. lia.
     + split; intros H; lia.
 Qed.
